@@ -127,6 +127,15 @@ pub fn drive(args: &[String]) {
                     let b1 = alone(FaceModify { bg: Some(c2), ..FaceModify::default() });
                     let u1 = alone(FaceModify { underline_color: Some(c3), ..FaceModify::default() });
                     ok &= f1.len() == 3 && b1.len() == 3 && u1.len() == 3 && has(&p8, &f1) && has(&p8, &b1) && has(&p8, &u1);
+                    // the underline colour is terminal state of its own: it is transmitted with every underline style,
+                    // also with the one that switches the underline off
+                    for style in [surf_n_term::UnderlineStyle::None, surf_n_term::UnderlineStyle::Straight, surf_n_term::UnderlineStyle::Double, surf_n_term::UnderlineStyle::Dotted, surf_n_term::UnderlineStyle::Dashed] {
+                        let m = FaceModify { underline: Some(style), underline_color: Some(c3), ..FaceModify::default() };
+                        let p = sgr_params(&enc(ColorDepth::TrueColor, TerminalCommand::FaceModify(m))).unwrap_or_default();
+                        ok &= has(&p, &[58, 2, *b as u32, r as u32, g as u32]);
+                        let p = sgr_params(&enc(ColorDepth::EightBit, TerminalCommand::FaceModify(m))).unwrap_or_default();
+                        ok &= has(&p, &u1);
+                    }
                 }
             }
             (e8f, e8b, e8u, gf, gb, tcf, ok, hist)
